@@ -769,6 +769,7 @@ def run_c15(ctx):
         abcases.append({"id": cid, "src": a["src"] + b})
     ctx.families["pair"] = len(tuples)
     pick_samples(ctx)
+    compose_mc(ctx)
     for variant in ("dbg", "rel"):
         ra, _ = run_to_dict(ctx, variant, [a for a in closed], events=False, tag="a" + variant)
         rb, _ = run_to_dict(ctx, variant, list(bcases.values()), events=False, tag="b" + variant)
@@ -944,6 +945,25 @@ def seppair_mc(ctx):
     ctx.extra["design_model_checking"] = {"module": "spec/MC_SepPair.tla",
                                           "invariants": ["SameConfiguration", "SepErase", "SepPlacement", "SepPlacementStrict", "NoFault"],
                                           "runs": runs}
+
+
+def compose_mc(ctx):
+    """C15 at the design level: spec/MC_Compose.tla starts a fresh lexer at every closed boundary and runs both in lockstep."""
+    sets = [("open", 8, 9, 3), ("macrostat", 6, 1, 2)] if ctx.quick() else \
+        [("open", 10, 9, 3), ("macrostat", 7, 1, 2), ("str", 12, 1, 2), ("call", 12, 1, 2)]
+    runs = []
+    for fs, stack, calls, window in sets:
+        cfg = (MC_CFG % dict(invs="Compose NoFault", props="", view="VIEW CView", maxfrags=1000, spec=8, tsc=4, fs=fs,
+                             stack=stack, window=window, calls=calls, emit="FALSE")).replace("SPECIFICATION Spec", "SPECIFICATION CSpec")
+        rc, out, wall = common.tlc("MC_Compose", cfg, ctx.dir, "mc-compose-" + fs, workers=16, timeout=3600, heap="16g")
+        if "Model checking completed. No error has been found." not in out:
+            raise ToolError("MC_Compose failed:\n" + out[-1500:])
+        st = common.parse_tlc_stats(out)
+        ctx.states += st["distinct"]
+        ctx.transitions += st["states"]
+        runs.append({"fragset": fs, "max_stack": stack, "distinct": st["distinct"], "states": st["states"], "wall_s": round(wall, 1)})
+        log("[mc] MC_Compose %s stack<=%d: %d distinct states, %.0fs, Compose holds" % (fs, stack, st["distinct"], wall))
+    ctx.extra["design_model_checking"] = {"module": "spec/MC_Compose.tla", "invariants": ["Compose", "NoFault"], "runs": runs}
 
 
 # ----------------------------------------------------------------------------- Gen (C12-C14)
